@@ -577,6 +577,13 @@ struct app {
     }
 };
 
+#ifdef BOOST_MQTT5_VERIF
+// internal events reported by the guarded hooks of the library (include/boost/mqtt5/detail/verif.hpp)
+static void hook_sink(const char* name, long a, long b, long c, long d) {
+    jev("h").str("k", name).i("a", a).i("b", b).i("c", c).i("d", d);
+}
+#endif
+
 static void on_terminate() {
     fprintf(stderr, "simrun: std::terminate\n");
     if (W().out) { fputs("{\"e\":\"terminate\",\"n\":0,\"t\":0}\n", W().out); fflush(W().out); }
@@ -586,6 +593,9 @@ static void on_terminate() {
 int main(int argc, char** argv) {
     if (argc < 3) { fprintf(stderr, "usage: simrun scripts.ndjson trace.ndjson [--from N] [--to M] [--quiet]\n"); return 2; }
     std::set_terminate(on_terminate);
+#ifdef BOOST_MQTT5_VERIF
+    if (!getenv("VERIF_NO_HOOKS")) boost::mqtt5::verif::sink() = hook_sink;
+#endif
     long from = 0, to = LONG_MAX;
     for (int i = 3; i < argc; ++i) {
         if (!strcmp(argv[i], "--from") && i + 1 < argc) from = atol(argv[++i]);
